@@ -478,12 +478,16 @@ theorem print_error_writes_nothing (g : GEnv) (esc : Bool) (pos : Nat) (arg : Ex
     (ctx : Scope) (st : St) (h : (evalPrint g esc pos arg dirs ctx st).cls = .err) :
     (evalPrint g esc pos arg dirs ctx st).st.out = st.out := by
   unfold evalPrint at h ⊢
+  show (evalPrintAt g esc pos arg dirs ctx (atNode st arg.pos)).st.out = (atNode st arg.pos).out
+  generalize atNode st arg.pos = st' at h ⊢
+  unfold evalPrintAt at h ⊢
   split
   · rfl
   · rename_i st1 he; exact evalIn_out he
   · rename_i v st1 _ he
     split
-    · exact evalIn_out he
+    · have := evalIn_out he
+      exact this
     · rename_i r esc' st2 hd
       split
       · rw [runDirectives_out _ _ _ _ _ _ _ hd, evalIn_out he]
